@@ -50,6 +50,12 @@ def shapes(ctx, rng):
 
 
 def loaders_for(kind):
+    base = _loaders_for(kind)
+    # every loader also with shared_memory=True (a different code path: the block is allocated before the arrays are read)
+    return base + [(name + "(shared_memory=True)", (lambda p, _f=fn: _f(p, True))) for name, fn in base]
+
+
+def _loaders_for(kind):
     s = sk()
     if kind == "linear":
         return [("CountMinLinear.load", s.CountMinLinear.load), ("countmin.load", s.countmin.load)]
@@ -203,11 +209,13 @@ def run_case(case, ctx, mon):
 def run(ctx, mon):
     from ..common import run_cases
 
+    state.fast_del(True)  # loads with shared_memory=True that succeed are dropped at once (no 0.25 s pause per sketch)
     run_cases(ctx, mon, gen_cases(ctx), run_case)
     mon.extra(exhaustive=True)
 
 
 def replay(case, ctx, mon):
+    state.fast_del(True)
     run_case(case, ctx, mon)
 
 
